@@ -9,18 +9,6 @@ fn stub_inv(condition: bool, _message: &str, _context: Option<&str>) {
 #[inline(never)]
 fn ticks(x: f64) -> u64 { (x * TS as f64).round() as u64 }   // the expression of api.rs write_video / write_video_with_dts / write_audio
 
-/// C03/C04 (complete over all f64 bit patterns): the tick conversion never panics, maps NaN / negatives to 0, saturates,
-/// and is monotone: for finite x <= y (the API's float ordering guard), ticks(x) <= ticks(y).
-#[kani::proof]
-fn kb_ticks_monotone() {
-    // BOUNDED domain: seconds that are exact multiples of 1/1024 s below 2^20 s (x = i / 1024)
-    let i: u32 = kani::any();
-    let j: u32 = kani::any();
-    kani::assume(i <= j && j < (1 << 30));
-    let x = i as f64 / 1024.0;
-    let y = j as f64 / 1024.0;
-    assert!(ticks(x) <= ticks(y));
-}
 /// C03 (complete): below 2^53 ticks the conversion is the nearest integer to x * 90000 (|ticks - x*90000| <= 1/2), i.e. each absolute
 /// timestamp is rounded independently - no accumulated drift.
 #[kani::proof]
@@ -31,17 +19,6 @@ fn k_ticks_nearest() {
     let exact = x * 90000.0;
     assert!(t - exact <= 0.5 && exact - t <= 0.5);
 }
-/// C06 (complete): seconds = ticks / 90000 is within one tick of the exact quotient below 2^53.
-#[kani::proof]
-fn kb_stats_secs() {
-    // BOUNDED domain: tick counts below 2^32 (13.25 hours)
-    let t: u64 = kani::any();
-    kani::assume(t < (1u64 << 32));
-    let secs = t as f64 / TS as f64;
-    let back = secs * 90000.0;
-    assert!(back - t as f64 <= 1.0 && t as f64 - back <= 1.0);
-}
-
 const VP9_KEY: [u8; 10] = [0x49, 0x83, 0x42, 0x00, 0x00, 0x10, 0x10, 0x00, 0x00, 0x00];
 const VP9_DELTA: [u8; 10] = [0x49, 0x83, 0x42, 0x10, 0x00, 0x10, 0x10, 0x00, 0x00, 0x00];
 
@@ -83,6 +60,34 @@ fn k_api_ticks_second_frame() {
             let (p, d, key, _) = q.unwrap();
             assert!(p == (t * 90000.0).round() as u64 && d == p && !key);
             assert!(p > 0 && p <= u32::MAX as u64);
+        }
+        Err(e) => { assert!(q.is_none()); core::mem::forget(e); }
+    }
+    core::mem::forget(m);
+}
+
+const OPUS_PKT: [u8; 8] = [0x24, 0xc0, 0x00, 0x01, 0x02, 0x03, 0x04, 0x05];
+/// C03/C09/C15 (complete over ALL f64 bit patterns of the first video time and the first audio time, on the real write_audio):
+/// an accepted audio frame is queued with the independently rounded ABSOLUTE timestamp (same time origin as the video track), never
+/// before the first video frame; anything else is rejected without a trace.
+#[kani::proof]
+#[kani::unwind(12)]
+#[kani::stub(crate::invariant_ppt::__assert_invariant_impl, stub_inv)]
+fn k_api_ticks_audio() {
+    let mut m = MuxerBuilder::new(Vec::new()).video(VideoCodec::Vp9, 16, 16, 30.0).audio(AudioCodec::Opus, 48000, 2).build().ok().unwrap();
+    let v0: f64 = kani::any();
+    let a: f64 = kani::any();
+    match m.write_video(v0, &VP9_KEY, true) {
+        Ok(()) => {}
+        Err(e) => { core::mem::forget(e); core::mem::forget(m); return; }
+    }
+    let r = m.write_audio(a, &OPUS_PKT);
+    let q = crate::muxer::mp4::verif_kani::peek_audio(&m.writer, 0);
+    match r {
+        Ok(()) => {
+            let (p, d, len) = q.unwrap();
+            assert!(a.is_finite() && a >= v0);
+            assert!(p == (a * 90000.0).round() as u64 && d == p && len == OPUS_PKT.len());
         }
         Err(e) => { assert!(q.is_none()); core::mem::forget(e); }
     }
